@@ -202,6 +202,16 @@ pub fn run(tier: Tier) -> Report {
         let small: &[&str] = &["", "x", "E1()", "x, \"msg\"", "EF(), E1()", "...", "t.k, EI(2)"];
         assert_seeds.extend(mk(combined_programs("assert", "assert", small), "two assert calls"));
     }
+    // the program's own throw-away name `_` around a removed call whose argument is kept
+    assert_seeds.extend(mk(
+        vec![
+            prog("local _, value = E1(1), E1(2)\nassert(m.k)\nreturn _, value"),
+            prog("local _ = E1(1)\nassert(m.k, \"m\")\nE1(_)\nreturn _"),
+            prog("for _, v in ipairs({EI(1)}) do assert(m[v]) E1(_, v) end\nreturn 1"),
+            prog("local function f(_) assert(m.k, m + 1) return _ end\nreturn f(E1(3))"),
+        ],
+        "underscore around a kept argument",
+    ));
     specs.push(Spec {
         property: "C17",
         seeds: assert_seeds,
@@ -239,6 +249,13 @@ pub fn run(tier: Tier) -> Report {
             let other = if target == "debug.profilebegin" { "debug.profileend" } else { "debug.profilebegin" };
             seeds.extend(mk(combined_programs(target, other, small), "two profiling calls"));
             seeds.extend(mk(combined_programs(target, target, small), "two profiling calls"));
+            seeds.extend(mk(
+                vec![
+                    prog(&format!("local _ = E1(1)\n{}(m.k)\nE1(_)\nreturn _", target)),
+                    prog(&format!("local _, value = E1(1), E1(2)\n{}(m.k, m + 1)\nreturn _, value", target)),
+                ],
+                "underscore around a kept argument",
+            ));
         }
         specs.push(Spec {
             property: "C17",
